@@ -123,7 +123,7 @@ PROPS = {
     },
     "C26": {
         "level": "proof",
-        "verus": ["execution", "collect_fields", "selection_set", "arguments", "complete_list", "complete_value"],
+        "verus": ["execution", "collect_fields", "selection_set", "arguments", "argument_object", "complete_list", "complete_value"],
         "explanation": "KERNELS (selection collection, list completion, ExecuteField, null propagation, error paths). Unit collect_fields: Verus proves that the executor's collect_fields computes the spec's CollectFields -- for every schema, document (fragments may even be cyclic), variables map, "
                        "object type and selection set, with visitedFragments / groupedFields threaded through as in the spec: @skip / @include, response keys (alias else name) grouped in order of first appearance, each named fragment expanded at most once and only if it exists and "
                        "DoesFragmentTypeApply, inline fragments unless their type condition does not apply. The specification function carries a fuel for fragment expansion; the contract holds for EVERY fuel >= the number of defined-but-unvisited fragments "
@@ -136,6 +136,9 @@ PROPS = {
                        "because no group of collect_fields is empty (proved in unit collect_fields). "
                        "Unit arguments: coerce_argument_values == CoerceArgumentValues per argument definition in order (a variable with a value is used as is unless it is null for a non-null type; a literal null for a non-null type is a field error, "
                        "any other literal is coerced; without a value the default is used, else a non-null type is a field error, else there is no entry); a failure records exactly one error, at the field's path, and a success records none. "
+                       "Unit argument_object: coerce_argument_value (literal coercion) satisfies the contract unit arguments takes for it -- a failure records exactly one error at the field's path, a success none -- and: null is a field error for a non-null type and null otherwise; "
+                       "a nested variable yields its runtime value (null or missing is a field error for a non-null type); for an input-object type a non-object literal or a key that is not a field of the type is a field error, and then per field of the type in order "
+                       "a PROVIDED value (the literal has the entry and it is not a variable without a runtime value) is coerced to the field's type, otherwise the default value, otherwise a field error for a non-null type, otherwise no entry. "
                        "Unit complete_list (async stripped as a listed rewrite; the resolver's item stream is a finite sequence): complete_list_value computes CompleteValue for list types with the null-propagation rules for EVERY list of items "
                        "(an item error makes a nullable item null, a non-null item nulls the list if the list is nullable and propagates otherwise; every item is completed with the ITEM type at path + [index]); "
                        "non-null positions are never null (the list itself, and no item of a list of non-null); execute_field == coerce arguments, resolve, complete at the field's path, then handle the field error against the field definition's type; "
@@ -151,7 +154,7 @@ PROPS = {
                         "which in turn takes complete_list_value and execute_selection_set (opaque) by contract; termination of this mutual recursion is not checked; serde_json's as_str / as_i64 / is_i64 / is_f64 / is_string / is_boolean are modelled on a Value split by kind; "
                         "the resolver call is an opaque function of its arguments; coerce_argument_values is taken as a function of field and definition whose errors lie at or below the field (unit arguments proves the latter and what the function is, given opaque literal coercion); the resolver's list yields finitely many (< usize::MAX) items; await points are plain calls; "
                         "ExecutionContext.errors (&mut Vec) is held as the Vec; serde_json's From<Vec<Value>> is Value::Array; Vec::reverse / Enumerate::next have their std meaning"],
-        "not_decided": ["the rest of the main clause: coerce_argument_value (coercion of a literal to an input type) and coerce_variable_values, the root (data == null exactly when a null reaches it), "
+        "not_decided": ["the rest of the main clause: the list case of coerce_argument_value, graphql_value_to_json (scalar / enum literals, default values), coerce_variable_values (decided under C28), the root (data == null exactly when a null reaches it), "
                         "what an error message says, what the result is when the resolver's iterator itself fails for an item of nullable type",
                         "termination of collect_fields' recursion (exec_allows_no_decreases_clause; it follows from the counting argument of the contract but is not checked)",
                         "that the executor calls these three functions in the right places (call sites are async code, not extracted)"],
